@@ -24,6 +24,10 @@ def run_case(case, root):
     d = root / case["id"]
     (d / "out").mkdir(parents=True)
     shutil.copytree(REPO / "py_ecc", d / "py_ecc")
+    if case.get("transform") == "unparse":
+        import ast
+        for f in (d / "py_ecc").rglob("*.py"):
+            f.write_text(ast.unparse(ast.parse(f.read_text())) + "\n")
     for ed in case["edits"]:
         f = d / ed["file"]
         s = f.read_text()
